@@ -944,8 +944,15 @@ impl FutWait {
 
 impl Wait for FutWait {
     #[cold]
-    fn wait(&self, _seq: usize, _w_pos: &AtomicUsize, _wc: &AtomicUsize) {
-        panic!("Somehow normal wait got called in futures queue");
+    fn wait(&self, seq: usize, w_pos: &AtomicUsize, wc: &AtomicUsize) {
+        // Reached through the blocking recv methods of the futures receivers.
+        // There is no task to park here, so behave like a yielding wait
+        loop {
+            if check(seq, w_pos, wc) {
+                return;
+            }
+            yield_now();
+        }
     }
 
     fn notify(&self) {
